@@ -18,19 +18,20 @@ Definition rel (t t' : rtok) : Prop :=
   r_client t' = r_client t /\ r_sub t' = r_sub t /\ r_aud t' = aud_with (r_client t) (r_aud t)
   /\ r_auth t' = r_auth t /\ r_scopes t' = r_scopes t.
 
-Record Sim (g : ledger) (s : st) : Prop := {
+(* keep = the storage policy f_keep: only a rotating storage kills the presented token *)
+Record Sim (keep : bool) (g : ledger) (s : st) : Prop := {
   s_codes : forall c n, In (c, n) (codes s) -> lookup c (g_codes g) = Some n /\ nat_in c (g_used g) = false;
   s_reqs : forall n q, find_req s n = Some q -> g_req g n = Some q;
   s_cbound : forall c n, lookup c (g_codes g) = Some n -> c <= ncode s;
   s_ubound : forall c, In c (g_used g) -> c <= ncode s;
   s_rts : forall n t, find_rt s n = Some t ->
-            exists t', g_rt g n = Some t' /\ rel t t' /\ nat_in n (g_rot g) = false;
+            exists t', g_rt g n = Some t' /\ rel t t' /\ (keep = false -> nat_in n (g_rot g) = false);
   s_rbound : forall n t', g_rt g n = Some t' -> n <= next s;
   s_rotbound : forall n, In n (g_rot g) -> n <= next s;
   s_noref : g_norefresh g = norefresh s
 }.
 
-Lemma sim_init : Sim ledger0 init.
+Lemma sim_init k : Sim k ledger0 init.
 Proof. constructor; cbn; intros; try contradiction; try reflexivity; discriminate. Qed.
 
 Section S.
@@ -55,11 +56,27 @@ Proof.
 Qed.
 
 (* one step: both predicates accept the model's answer and the simulation is kept *)
+Lemma asked_eff uri scopes nonce chal x :
+  asked_uri uri x = eff_uri uri x /\ asked_scopes scopes x = eff_scopes scopes x
+  /\ asked_nonce nonce x = eff_nonce nonce x /\ asked_chal chal x = eff_chal chal x.
+Proof.
+  unfold asked_uri, asked_scopes, asked_nonce, asked_chal, eff_uri, eff_scopes, eff_nonce, eff_chal, supersede, nonempty.
+  destruct (x_ro x) as [ro|]; cbn [option_map].
+  - repeat split.
+    + destruct (String.eqb (ro_uri ro) ""); reflexivity.
+    + destruct (string_in "openid" scopes); [|reflexivity]. destruct (ro_scopes ro); reflexivity.
+    + destruct (String.eqb (ro_nonce ro) ""); reflexivity.
+    + destruct (String.eqb (ro_cc ro) ""); cbn [negb].
+      * destruct (String.eqb (match chal with Some c => snd c | None => "" end) ""); reflexivity.
+      * destruct (String.eqb (ro_cc ro) ""); reflexivity.
+  - repeat split. destruct (string_in "openid" scopes); reflexivity.
+Qed.
+
 Lemma sim_step g s o s' x :
-  Sim g s ->
+  Sim (f_keep cf) g s ->
   (forall c n, In (c, n) (codes s) -> exists q, find_req s n = Some q /\ q_done q = true) ->
   trans H cf s o s' x ->
-  c04_ok H cf g o x = true /\ c07_ok cf g o x = true /\ Sim (ledger_step g o x) s'.
+  c04_ok H cf g o x = true /\ c07_ok cf g o x = true /\ Sim (f_keep cf) (ledger_step g o x) s'.
 Proof.
   intros [Scodes Sreqs Scb Sub Srts Srb Srot Snr] Hdone Ht.
   destruct Ht as [o x Hx Hns | pl0 cr0 n0 sc0 t0 Hrt0 Hn0 | cl uri scopes nonce chal ax | n sub stamp q Hq | n q Hq Hd
@@ -81,6 +98,7 @@ Proof.
     destruct (subset (a :: l) (r_scopes t0)); [discriminate | reflexivity].
   - (* authorize *)
     split; [reflexivity|]. split; [reflexivity|]. cbn [ledger_step].
+    destruct (asked_eff uri scopes nonce chal ax) as [-> [-> [-> ->]]].
     constructor; cbn [g_reqs g_codes g_used g_rts g_rot g_norefresh reqs codes rtoks next ncode norefresh]; try assumption.
     + intros n q. unfold find_req, g_req. cbn [reqs g_reqs find q_id].
       destruct (Nat.eqb (S (next s)) n); [auto | apply Sreqs].
@@ -145,7 +163,7 @@ Proof.
         destruct (Nat.eqb (S (next s)) m) eqn:E.
         -- injection Hf as <-. eexists. split; [reflexivity|]. split.
            ++ unfold rel. cbn. repeat split; reflexivity.
-           ++ apply nat_in_false. apply Nat.eqb_eq in E. intro Hin. apply Srot in Hin. lia.
+           ++ intros _. apply nat_in_false. apply Nat.eqb_eq in E. intro Hin. apply Srot in Hin. lia.
         -- apply Srts in Hf. exact Hf.
       * apply Srts in Hf. exact Hf.
     + intros m t'. unfold g_rt. destruct w; cbn [g_rts find r_id rt_of_resp].
@@ -167,14 +185,36 @@ Proof.
     unfold has_refresh in Hr. apply andb_true_iff in Hr as [Hr Hnref]. rewrite Hcid, <- Snr in Hnref.
     assert (Hfresh : g_rt g (S (next s)) = None).
     { destruct (g_rt g (S (next s))) eqn:E; [apply Srb in E; lia | reflexivity]. }
+    assert (Hj : match (if c_jwt c then Some (c_id c) else None) with
+                 | Some c0 => String.eqb c0 (r_client t) | None => true end = true).
+    { destruct (c_jwt c); [rewrite Hcid; apply String.eqb_refl | reflexivity]. }
     unfold issue_refresh. cbn [fst snd].
     split; [reflexivity|].
+    destruct (f_keep cf) eqn:Hkeep.
+    { (* the storage keeps the presented token *)
+      split.
+      { cbn [c07_ok]. rewrite Hgt, Hkeep, Hfl, R1, Hp, R5, Hs2. cbn [orb negb andb t_scope t_jwt t_rt].
+        unfold client_refresh. rewrite Hfc, Hr, Hnref, Hsceq, Hj, Htid, Nat.eqb_refl.
+        cbn [negb andb t_sub t_at_sub t_aud t_azp t_auth].
+        rewrite R2, R3, R4, openid_guard, !String.eqb_refl, strs_eqb_refl, Nat.eqb_refl. reflexivity. }
+      cbn [ledger_step]. unfold add_rt. cbn [t_rt].
+      constructor; cbn [g_reqs g_codes g_used g_rts g_rot g_norefresh reqs codes rtoks next ncode norefresh]; try assumption.
+      + intros m t1 Hf. unfold find_rt in Hf. cbn [rtoks find r_id] in Hf.
+        unfold g_rt. cbn [g_rts find r_id rt_of_resp]. rewrite Htid in Hf |- *.
+        destruct (Nat.eqb n m) eqn:E.
+        * injection Hf as <-. eexists. split; [reflexivity|]. split; [|discriminate].
+          unfold rel. cbn. repeat split; reflexivity.
+        * apply Nat.eqb_neq in E. rewrite find_filter_keep in Hf.
+          -- destruct (Srts _ _ Hf) as [t2 [Hg2 [Hrel _]]]. exists t2. split; [exact Hg2|]. split; [exact Hrel | discriminate].
+          -- intros y Ey. apply Nat.eqb_eq in Ey. rewrite Ey. apply negb_true_iff, Nat.eqb_neq. auto.
+      + intros m t1. unfold g_rt. cbn [g_rts find r_id rt_of_resp]. rewrite Htid.
+        destruct (Nat.eqb n m) eqn:E; [apply Nat.eqb_eq in E; lia|].
+        intro Hg. apply Srb in Hg. lia.
+      + intros m [<- | Hin]; [lia|]. apply Srot in Hin. lia. }
+    specialize (Hnrot eq_refl).
     split.
-    { cbn [c07_ok]. rewrite Hgt, Hnrot, Hfl, R1, Hp, R5, Hs2. cbn [negb andb t_scope t_jwt t_rt].
+    { cbn [c07_ok]. rewrite Hgt, Hkeep, Hnrot, Hfl, R1, Hp, R5, Hs2. cbn [orb negb andb t_scope t_jwt t_rt].
       unfold client_refresh. rewrite Hfc, Hr, Hnref, Hsceq. cbn [andb].
-      assert (Hj : match (if c_jwt c then Some (c_id c) else None) with
-                   | Some c0 => String.eqb c0 (r_client t) | None => true end = true).
-      { destruct (c_jwt c); [rewrite Hcid; apply String.eqb_refl | reflexivity]. }
       rewrite Hj, Hfresh. cbn [andb].
       assert (Hne : Nat.eqb (S (next s)) n = false) by (apply Nat.eqb_neq; lia).
       rewrite Hne. cbn [negb andb t_sub t_at_sub t_aud t_azp t_auth].
@@ -186,12 +226,13 @@ Proof.
       destruct (Nat.eqb (S (next s)) m) eqn:E.
       * injection Hf as <-. eexists. split; [reflexivity|]. split.
         -- unfold rel. cbn. repeat split; reflexivity.
-        -- apply Nat.eqb_eq in E. apply nat_in_false. intros [E' | Hin]; [lia|]. apply Srot in Hin. lia.
+        -- intros _. apply Nat.eqb_eq in E. apply nat_in_false. intros [E' | Hin]; [lia|]. apply Srot in Hin. lia.
       * destruct (Nat.eq_dec m n) as [-> | Hmn].
         -- rewrite find_filter_drop in Hf; [discriminate|].
            intros y Ey. apply Nat.eqb_eq in Ey. rewrite Ey, Htid, Nat.eqb_refl. reflexivity.
         -- rewrite find_filter_keep in Hf.
            ++ destruct (Srts _ _ Hf) as [t2 [Hg2 [Hrel Hnr]]]. exists t2. split; [exact Hg2|]. split; [exact Hrel|].
+              intros _. specialize (Hnr eq_refl).
               apply nat_in_false. intros [E' | Hin]; [congruence|]. apply nat_in_In in Hin. congruence.
            ++ intros y Ey. apply Nat.eqb_eq in Ey. rewrite Ey, Htid. apply negb_true_iff, Nat.eqb_neq. exact Hmn.
     + intros m t1. unfold g_rt. cbn [g_rts find r_id rt_of_resp].
@@ -223,14 +264,14 @@ Qed.
 Lemma outs_run ops : outs H cf ops = run init ops.
 Proof. unfold outs, exec, exec_from. now rewrite fold_outs. Qed.
 
-Lemma check_run ops : forall h s g, reach H cf h s -> Sim g s ->
+Lemma check_run ops : forall h s g, reach H cf h s -> Sim (f_keep cf) g s ->
   check (c04_ok H cf) g ops (run s ops) = true /\ check (c07_ok cf) g ops (run s ops) = true.
 Proof.
   induction ops as [|[r o] ops IH]; intros h s g Hr Hsim; cbn [run check]; [auto|].
   destruct (step H cf r s o) as [s1 x] eqn:Hs. cbn [check snd].
   pose proof (reach_inv H cf _ _ Hr) as Hinv.
   assert (Hdone : forall c n, In (c, n) (codes s) -> exists q, find_req s n = Some q /\ q_done q = true).
-  { intros c n Hin. destruct (i_codes _ _ Hinv _ _ Hin) as [_ [Hq _]]. exact Hq. }
+  { intros c n Hin. destruct (i_codes _ _ _ Hinv _ _ Hin) as [_ [Hq _]]. exact Hq. }
   destruct (sim_step g s o s1 x Hsim Hdone (step_trans H cf _ _ _ _ _ Hs)) as [H4 [H7 Hsim']].
   destruct (IH _ s1 _ (reach_snoc H cf _ _ _ _ _ _ Hr Hs) Hsim') as [I4 I7].
   rewrite H4, H7, I4, I7. auto.
